@@ -9,13 +9,14 @@ import (
 	"path/filepath"
 	"sort"
 	"strings"
+	"sync"
 	"testing"
 	"testing/synctest"
 	"time"
 
 	"github.com/btcsuite/btcd/chaincfg/v2"
-	"github.com/btcsuite/btclog"
 	"github.com/btcsuite/btcd/wire/v2"
+	"github.com/btcsuite/btclog"
 	"github.com/btcsuite/btcwallet/walletdb"
 	_ "github.com/btcsuite/btcwallet/walletdb/bdb"
 	"github.com/lightninglabs/neutrino"
@@ -84,10 +85,90 @@ type World struct {
 
 	steps int
 	halt  bool
+
+	// Yield points (hook H7): the block manager's goroutines call yieldHook
+	// between two steps of one chain change. An armed plan parks the
+	// calling goroutine there (a durable, simulated-time sleep; no mutex is
+	// held at these points) so that whatever the scenario does next happens
+	// at that very instant. While a goroutine is parked the regular
+	// observers are not run (the chain change is half done); onParked, if
+	// set, is run once per park by the simulator's own goroutine.
+	ymu         sync.Mutex
+	yieldPlans  []*yieldPlan
+	yieldSeen   map[string]int
+	parked      string
+	parkHandled bool
+	nParks      int
+	onParked    func(site string)
 	// freeRun: engine E5's mode. Nodes answer at once from their own
 	// goroutines; nothing may touch the tape, the event queue or the run
 	// context from there.
 	freeRun bool
+}
+
+type yieldPlan struct {
+	site string
+	nth  int // fire at the nth time the site is reached after arming
+	dur  time.Duration
+	seen int
+	done bool
+}
+
+// yieldSites are the hook-H7 sites of the block manager.
+var yieldSites = []string{"headers.beforeTipUpdate", "reorg.afterRollback", "rollback.afterBlock",
+	"cfheaders.afterStoreWrite", "cfheaders.afterEvent"}
+
+// armYield plans one park: the nth time from now that a client goroutine
+// reaches site it sleeps there for dur of simulated time.
+func (w *World) armYield(site string, nth int, dur time.Duration) {
+	w.ymu.Lock()
+	w.yieldPlans = append(w.yieldPlans, &yieldPlan{site: site, nth: nth, dur: dur})
+	w.ymu.Unlock()
+	w.rc.Logf("t=%s yield plan: park at %s (occurrence %d) for %v", w.clock(), site, nth, dur)
+}
+
+// yieldHook is neutrino.VerifYield for this run. It runs on client goroutines.
+func (w *World) yieldHook(site string) {
+	w.ymu.Lock()
+	w.yieldSeen[site]++
+	var hit *yieldPlan
+	if w.parked == "" && !w.freeRun {
+		for _, pl := range w.yieldPlans {
+			if pl.done || pl.site != site {
+				continue
+			}
+			pl.seen++
+			if pl.seen == pl.nth {
+				pl.done = true
+				hit = pl
+				break
+			}
+		}
+	}
+	if hit != nil {
+		w.parked = site
+		w.parkHandled = false
+		w.nParks++
+	}
+	w.ymu.Unlock()
+	if hit == nil {
+		return
+	}
+	select {
+	case w.net.activity <- struct{}{}:
+	default:
+	}
+	time.Sleep(hit.dur)
+	w.ymu.Lock()
+	w.parked = ""
+	w.ymu.Unlock()
+}
+
+// parkedAt returns the site a client goroutine is parked at ("" = none).
+func (w *World) parkedAt() string {
+	w.ymu.Lock()
+	defer w.ymu.Unlock()
+	return w.parked
 }
 
 // SimStart is the simulated date every run jumps to before anything else
@@ -102,7 +183,8 @@ func newWorld(t *testing.T, rc *core.RunCtx, params *chaincfg.Params) *World {
 	jump := SimStart.Add(off).Sub(time.Now())
 	time.Sleep(jump)
 	rc.Res.SimNs -= int64(jump) // the jump is not simulated activity
-	w := &World{t: t, rc: rc, tp: rc.Tape, params: params, epoch: time.Now()}
+	w := &World{t: t, rc: rc, tp: rc.Tape, params: params, epoch: time.Now(), yieldSeen: map[string]int{}}
+	neutrino.VerifYield = w.yieldHook
 	w.tree = chainmodel.NewTree(params)
 	w.net = newNet(params.Net)
 	tmpl, err := e2.Template()
@@ -306,8 +388,25 @@ func (w *World) stepUntil(deadline time.Time, wake <-chan struct{}) {
 	// collect may close connections (node behaviours), which wakes client
 	// goroutines: observe only once they have settled again.
 	synctest.Wait()
-	for _, o := range w.observers {
-		o()
+	if site := w.parkedAt(); site != "" {
+		// A client goroutine is parked between two steps of one chain
+		// change: the regular oracles (which compare completed states)
+		// wait; the scenario's racing action runs once.
+		w.ymu.Lock()
+		first := !w.parkHandled
+		w.parkHandled = true
+		w.ymu.Unlock()
+		if first {
+			w.rc.Probe("park_" + site)
+			w.rc.Logf("t=%s parked: a client goroutine is at %s", w.clock(), site)
+			if w.onParked != nil {
+				w.onParked(site)
+			}
+		}
+	} else {
+		for _, o := range w.observers {
+			o()
+		}
 	}
 	w.steps++
 	now := time.Now()
